@@ -4110,11 +4110,23 @@ impl Database {
                 let column_types: Vec<_> =
                     table_def.columns().iter().map(|c| c.data_type()).collect();
 
-                if let Ok(storage_arc) = {
+                // insert_cached() writes the bound values as they are: it neither generates
+                // AUTO_INCREMENT ids nor advances the table's counter, so such tables keep
+                // going through execute_insert_internal()
+                let has_auto_increment = table_def
+                    .columns()
+                    .iter()
+                    .any(|c| c.has_constraint(&crate::schema::Constraint::AutoIncrement));
+
+                let plan_storage = if has_auto_increment {
+                    None
+                } else {
                     let mut fm_guard = self.shared.file_manager.write();
                     let fm = fm_guard.as_mut().unwrap();
-                    fm.table_data(schema_name, table_name)
-                } {
+                    fm.table_data(schema_name, table_name).ok()
+                };
+
+                if let Some(storage_arc) = plan_storage {
                     use crate::schema::Constraint;
                     use std::collections::HashSet;
 
